@@ -1068,6 +1068,18 @@ void MatrixInversion(matrix *m, matrix *m_inv)
     }
 
     for(i = 0; i < m->row; i++){
+      /* partial pivoting: bring the largest remaining entry of column i onto the diagonal */
+      size_t piv = i;
+      for(k = i+1; k < m->row; k++){
+        if(fabs(AI->data[k][i]) > fabs(AI->data[piv][i])){
+          piv = k;
+        }
+      }
+      if(piv != i){
+        double *tmp_row = AI->data[i];
+        AI->data[i] = AI->data[piv];
+        AI->data[piv] = tmp_row;
+      }
       for(j = 0; j < m->col; j++){
         if(i!=j){
           ratio = AI->data[j][i] / AI->data[i][i];
